@@ -181,6 +181,7 @@ pub fn raw_data(c: &mut Cur) -> c06::RawData {
         6 | 7 => c06::Fault::OutOfRange(c.u16(), c.bool()),
         8 => c06::Fault::StringInWord(c.u16()),
         9 => c06::Fault::DataInDseg(c.u16()),
+        10 if c.bool() => c06::Fault::HugeLiteral(c.u16(), c.u8()),
         _ => c06::Fault::ByteInCseg(c.u16()),
     };
     c06::RawData { blocks, names: names(40), fault, style: c.style() }
@@ -209,7 +210,7 @@ pub fn raw_case(c: &mut Cur) -> c08::RawCase {
 
 pub fn raw_macros(c: &mut Cur) -> c09::RawMacros {
     let style = c.style();
-    let macros = c.vec(1, 4, |c| c09::RawMacro { kinds: c.vec(0, 10, |c| c.u8() % 8), body: c.vec(1, 6, |c| (c.u8(), c.u8(), c.u8())), name_case: (c.u8(), c.u32()), excursion_at_end: c.below(4) == 0 });
+    let macros = c.vec(1, 4, |c| c09::RawMacro { kinds: c.vec(0, 10, |c| c.u8() % 9), body: c.vec(1, 6, |c| (c.u8(), c.u8(), c.u8())), name_case: (c.u8(), c.u32()), excursion_at_end: c.below(4) == 0 });
     let calls = c.vec(1, 6, |c| c09::RawCall { mac: c.u16(), name_case: (c.u8(), c.u32()), raw: (0..24).map(|_| c.u8()).collect(), before_def: c.below(10) < 3 });
     let exprs = (0..6).map(|_| expr(c, 4, &[], 0)).collect();
     let leg = match c.below(10) {
